@@ -119,6 +119,24 @@ type cfg struct {
 	// lateOther: while the script runs, another controller with an input on a kind nobody watched so far is
 	// registered (its new watch delivers a bookmark-only batch into the event pipeline)
 	lateOther bool
+	// listFail: the first listFail List calls for the primary kind fail with a transient error (the start-up listing
+	// of a queue controller must be retried until it succeeds)
+	listFail int
+}
+
+// flakyList makes the first *n List calls of the Int kind fail.
+type flakyList struct {
+	state.CoreState
+	n *int
+}
+
+func (f flakyList) List(ctx context.Context, kind resource.Kind, opts ...state.ListOption) (resource.List, error) {
+	vrt.TouchKey("c05.obs", true)
+	if kind.Type() == tInt && *f.n > 0 {
+		*f.n--
+		return resource.List{}, fmt.Errorf("injected transient list failure")
+	}
+	return f.CoreState.List(ctx, kind, opts...)
 }
 
 // observation of one controller
@@ -181,7 +199,12 @@ func scenario(c cfg) explore.Scenario {
 func body(c cfg, x *explore.X) {
 	ctx, cancel := vctx.WithCancel(context.Background())
 	log := &hx.Log{}
-	st := state.WrapCore(hx.NewNamespaced(log))
+	var core state.CoreState = hx.NewNamespaced(log)
+	listFail := c.listFail
+	if listFail > 0 {
+		core = flakyList{core, &listFail}
+	}
+	st := state.WrapCore(core)
 	for _, op := range c.pre {
 		doW(ctx, st, op)
 	}
@@ -310,6 +333,7 @@ func body(c cfg, x *explore.X) {
 		vrt.FireNextTimer()
 	}
 	vrt.TouchKey("c05.obs", true)
+	listFail = 0 // the harness's own final reads are not subject to the injected failures
 	check(c, x, log, st, observations, base)
 	vrt.Branching(false)
 	log.Frozen = true
@@ -514,6 +538,7 @@ func build(tier string) []explore.Scenario {
 	add(cfg{name: "q-primary+mapped-destroy-ready-id-m2+mapped-id-m1/update-m1", q: true, inputs: []inSpec{{tInt, "", qp}, {tStr, "m2", qmd}, {tStr, "m1", qm}}, pre: []wop{"create a", "create b", "create m1", "create m2"}, script: []wop{"update m1"}, prologue: true, bounds: b0[:len(b0)-1]})
 	add(cfg{name: "q-primary+mapped-destroy-ready-kind+mapped-id-m1/update-m1", q: true, inputs: []inSpec{{tInt, "", qp}, {tStr, "", qmd}, {tStr, "m1", qm}}, pre: []wop{"create a", "create b", "create m1"}, script: []wop{"update m1"}, prologue: true, bounds: b0[:len(b0)-1]})
 	add(cfg{name: "q-primary+mapped-id-m1+mapped-destroy-ready-kind/update-m1", q: true, inputs: []inSpec{{tInt, "", qp}, {tStr, "m1", qm}, {tStr, "", qmd}}, pre: []wop{"create a", "create b", "create m1"}, script: []wop{"update m1"}, prologue: true, bounds: b0[:len(b0)-1]})
+	add(cfg{name: "q-primary/startup-listing-fails-twice", q: true, inputs: []inSpec{{tInt, "", qp}}, listFail: 2, pre: []wop{"create a", "create b"}, script: []wop{"create c"}, prologue: true, bounds: []int{0}})
 	add(cfg{name: "q-primary/after-run", q: true, inputs: []inSpec{{tInt, "", qp}}, when: "after-run", pre: pre, script: []wop{"update a"}, prologue: true, bounds: b0})
 	if tier == "thorough" {
 		add(cfg{name: "weak-kind/3updates", inputs: []inSpec{{tInt, "", w}}, pre: pre, script: []wop{"update a", "create b", "update a"}, prologue: true, bounds: []int{0, 1, 2}})
